@@ -8,6 +8,12 @@ VERIF = os.path.dirname(os.path.dirname(os.path.abspath(__file__)))
 BASELINE_OFF = "/verif/tool/baseline.sh"
 
 CLAIMED = {
+    "C16": dict(
+        category="translation_validation",
+        technique="static analysis / translation validation: every member of the twelve hand-unrolled Evaluation<N> files is compared, statement list by statement list, with the generic implementation after unrolling its loops for N (clang AST, normalised); slot-uniformity lint; same-slot chain-rule lint on Math.hpp",
+        text="Decides that the twelve unrolled specialisations, the generic static implementation and (loop bodies and value updates of) the dynamic implementation are the same program modulo loop unrolling - ~590 member pairs compared in statement order, so a wrong index in one slot of one specialisation, a skipped or doubled slot, or a changed operand order is a reported disagreement - and that each of the 20 derivative loops in Math.hpp writes slot i from slot i of every Evaluation argument, once, over all slots. Not decided: that the derivative formulas are the true derivatives (calculus), floating-point exactness.",
+        note="Trusted: the layout accessors each specialisation declares (size, dstart_, dend_, valuepos_), checked by C16.included. Exception messages are ignored.",
+        design="DESIGN.md §4 C16"),
     "C10": dict(
         technique="static analysis: agreement of writer and reader tables (array names, element types, record order) extracted from the clang AST of the summary writers and the three readers",
         text="Decides narrowly: every SMSPEC array the legacy reader requires is written with a compatible element type; the UNSMRY record sequence SEQHDR,(MINISTEP,PARAMS float)+ is what the scanner accepts; the two ESMRY writers are siblings and emit exactly the ordered (name,type) sequence the ESMRY reader checks; V<n> vectors are float; combine/splitSummaryNumber are inverse. NOT decided (stated plainly): the positional seek arithmetic of ESmry::loadData/ExtESmry (offsets as a function of vector count and position), the time axis and restart chaining - an off-by-one in an offset formula is not caught.",
